@@ -440,7 +440,7 @@ def oracle(cfg, case, obs):
     # replies held back by a paused writer (the peer is not reading) when something cuts the
     # connection are not promised: the close overtakes them
     hold_t = None
-    if c['pause'] and any(c['pause'][0] <= t < c['pause'][1] for t, _i in cuts):
+    if c['pause'] and any(c['pause'][0] <= t <= c['pause'][1] for t, _i in cuts):
         hold_t = float(c['pause'][0])
 
     def live(i):
